@@ -38,7 +38,7 @@ SPECIALS = [" ", "  ", "%s", "%d", "%(x)s", "{}", "{0}", "\\", "\\n", "\"", "'",
 SCENARIOS = ["client_ok", "client_bad", "raw_PASS_ok", "raw_pass_ok", "raw_PaSs_bad", "raw_out_of_sequence", "raw_relogin",
              "raw_user_limit", "raw_server_limit", "raw_errors_after_login", "raw_cut_in_pass", "client_ok_ops", "raw_slow_manager",
              "raw_failing_manager", "raw_close_while_logged_in", "client_timeout_in_pass", "raw_latin1_pass", "raw_pipelined_pass",
-             "raw_pass_no_newline", "client_failing_manager", "client_hangup_after_pass"]
+             "raw_pass_no_newline", "client_failing_manager", "client_hangup_after_pass", "client_acct_first"]
 
 
 def gen_password(rng):
@@ -178,6 +178,32 @@ async def scenario(net, hyg, name, password):
             except Exception as e:
                 outcome.append(type(e).__name__)
             c.close()
+            srv.close()
+        elif name == "client_acct_first":
+            # a server that wants the account before the password (USER -> 332, ACCT -> 331, PASS -> 230 / 530), and one that
+            # wants it afterwards (USER -> 331, PASS -> 332, ACCT -> 230)
+            first = len(password) % 2 == 0
+
+            async def handle2(reader, writer):
+                writer.write(b"220 hi\r\n")
+                script = [b"332 account\r\n", b"331 password\r\n", b"230 in\r\n"] if first else [b"331 password\r\n", b"332 account\r\n", b"230 in\r\n"]
+                for rep in script:
+                    if not await reader.readline():
+                        break
+                    writer.write(rep)
+                await reader.readline()
+                writer.write(b"221 bye\r\n")
+                writer.close()
+            srv = await asyncio.start_server(handle2, "127.0.0.1", 2122)
+            c = aioftp.Client(path_io_factory=aioftp.MemoryPathIO)
+            await c.connect("127.0.0.1", 2122)
+            try:
+                await c.login("alice", password, "acct-7")
+                outcome.append("ok")
+                await c.quit()
+            except Exception as e:
+                outcome.append(type(e).__name__)
+                c.close()
             srv.close()
         elif name == "client_timeout_in_pass":
             # the client's own socket_timeout expires while it waits for the answer to PASS
